@@ -534,6 +534,14 @@ Error:
         }
         struct video_s* video = self->video + i;
         camera_stop(video->source.camera);
+        // Sink and filter threads that were already started are normally told
+        // to stop by their source thread, after its last frame. If the source
+        // thread of this stream was never started, tell them here, otherwise
+        // a later stop/abort/shutdown waits forever.
+        if (!video->source.is_running) {
+            video->filter.is_stopping = 1;
+            video->sink.is_stopping = 1;
+        }
     }
     self->state = DeviceState_AwaitingConfiguration;
     return AcquireStatus_Error;
